@@ -278,6 +278,11 @@ pub fn gen_fix(r: &mut Rng, tier: &str, emit: &mut dyn FnMut(String)) {
         emit(format!("{}{}", hdr(r, "tcpas", "-"), ops.iter().map(|o| format!(" ; {}", o)).collect::<String>()));
     }
     for a in tf { for b in tf { for c in tf { emit(format!("{} ; {} ; {} ; {}", hdr(r, "tcpas", "-"), a, b, c)); } } }
+    // pci_sbdf: every (device, function) pair, and just outside the domain (must be refused)
+    for d in 0..32u64 { for f in 0..8u64 { emit(format!("{} ; sbdf=9.{}.{}.{}", hdr(r, "tcpas", "-"), 0x5a, d, f)); } }
+    for (d, f) in [(32u64, 0u64), (31, 8), (32, 8), (33, 1), (64, 0), (255, 7), (0, 9), (0, 16), (1, 255), (255, 255)] {
+        emit(format!("{} ; sbdf=9.{}.{}.{}", hdr(r, "tcpas", "-"), 0x5a, d, f));
+    }
     for _ in 0..300 * k {
         let mut l = hdr(r, "tcpas", "-");
         for _ in 0..r.range(1, 12) { l.push_str(" ; "); l.push_str(&tcpas_op(r)); }
